@@ -187,10 +187,19 @@ def default_stage(c, judge):
   from vizier._src.pythia import suggest_default
   n = 40 if c.tier == 'quick' else 400
   reqs, metas = [], []
-  for i in range(n):
-    space = cd.gen_space(c.rng, f32=False, max_params=5, max_int_width=20)
+  # directed: ranges at the edge of the double format (valid bounds: finite, lo <= hi) - the centre of
+  # the range must still be a point of the range
+  big = 1.7976931348623157e308
+  extreme = [(1e308, 1.5e308), (-1.7e308, -1e308), (-1e308, 1e308), (-1.5e308, 0.5e308), (big / 2, big), (-big, big),
+             (5e-324, 1.5e-323), (-5e-324, 5e-324), (2.2250738585072014e-308, 4.4501477170144028e-308), (1e300, 3e300)]
+  for i in range(n + len(extreme)):
+    if i < len(extreme):
+      space = [{'name': 'x', 't': 'D', 'lo': extreme[i][0], 'hi': extreme[i][1], 'sc': 'LIN'},
+               {'name': 'y', 't': 'D', 'lo': 0.0, 'hi': 1.0, 'sc': 'LIN'}]
+    else:
+      space = cd.gen_space(c.rng, f32=False, max_params=5, max_int_width=20)
     defaults, malformed = {}, False
-    for p in space:
+    for p in (space if i >= len(extreme) else []):
       r = c.rng.random()
       if r < 0.45:
         continue
